@@ -157,10 +157,10 @@ def initSt : St :=
               { cls := "Function", proto := some objProto,
                 props := [("call", p101 (.ref 3)), ("apply", p101 (.ref 4)), ("bind", p101 (.ref 5))], val := .native "proto" },
               nativeFn "call" 1, nativeFn "apply" 2, nativeFn "bind" 1,
-              -- the NativeError prototype objects (class "Error" in otto; no program of this layer can reach them,
-              -- only their `name` is read, through the Error objects that inherit from them)
-              { cls := "Object", proto := some objProto, props := [("name", p101 (.str "TypeError"))] },
-              { cls := "Object", proto := some objProto, props := [("name", p101 (.str "ReferenceError"))] },
+              -- the NativeError prototype objects: class "Error", reached by Object.getPrototypeOf(e); the ottoError that
+              -- an Error INSTANCE carries (and that these objects lack in otto) is invisible to the programs of this layer
+              { cls := "Error", proto := some objProto, props := [("name", p101 (.str "TypeError"))], val := .error "TypeError" },
+              { cls := "Error", proto := some objProto, props := [("name", p101 (.str "ReferenceError"))], val := .error "ReferenceError" },
               { cls := "String", proto := some objProto, props := [] },
               { cls := "Number", proto := some objProto, props := [] },
               { cls := "Boolean", proto := some objProto, props := [] } ],
@@ -952,6 +952,20 @@ def evalE : Nat → FE → M MV
       let tv ← resolve test
       if truthy tv then do let v ← resolve (← evalE n a); pure (.val v)
       else do let v ← resolve (← evalE n b); pure (.val v)
+    | .protoOf e1 => do                                                              -- builtin_object.go builtinObjectGetPrototypeOf
+      let v ← resolve (← evalE n e1)
+      (match v with
+       | .ref a => do
+         let σ ← getSt
+         (match σ.obj? a with
+          | some o => pure (.val (match o.proto with | some q => .ref q | none => .null))
+          | none => pure (.val .null))
+       | _ => throwErr "TypeError")
+    | .regex => do                                                                   -- :83 newRegExpDirect (type_regexp.go:19)
+      let a ← allocObj { cls := "RegExp", proto := some objProto,
+                         props := [("global", p000 (.bool false)), ("ignoreCase", p000 (.bool false)), ("multiline", p000 (.bool false)),
+                                   ("lastIndex", p100 (.num 0)), ("source", p000 (.str "x"))] }
+      pure (.val (.ref a))
     | .delX e1 => do                                                                 -- :341 unary DELETE
       let target ← evalE n e1
       (match target with
